@@ -329,6 +329,10 @@ func c14Run(t *testing.T, c c14Case, known func(string) bool) (info c14Info, err
 		}
 		slices.Sort(info.classes)
 		info.nontrivial = cls["stop_straddles_pieces"] || cls["multibyte_straddles_pieces"]
+		if err != nil && len(err.Error()) > 1400 { // long scripts: keep both ends of the message
+			m := err.Error()
+			err = fmt.Errorf("%s … [%d bytes] … %s", m[:700], len(m)-1200, m[len(m)-500:])
+		}
 	}()
 	// normalise
 	c.NumCtx = max(c.NumCtx, 4)
